@@ -6,7 +6,7 @@
    "Enclosed text" is defined on the document itself (DocSpec below: a stack of open markers, each
    accumulating the text that follows it), independently of positions. *)
 From Coq Require Import List ZArith NArith Bool Lia.
-From YS Require Import Base.Sexp Num.F64 Yarn.Ast Yarn.Value Markup.LineParser Proofs.MarkupProofs.
+From YS Require Import Base.Sexp Num.F64 Num.Decimal Yarn.Ast Yarn.Value Markup.LineParser Proofs.MarkupProofs.
 (* generated from Proofs/MarkupDocProofs.v by generalising open markers; lemmas keep their names in this module *)
 Import ListNotations.
 Local Open Scope Z_scope.
@@ -545,11 +545,12 @@ Qed.
    properties.  [open_written] holds for these written forms, so the round trip above applies to them. *)
 Local Open Scope Z_scope.
 
-Inductive pval := PVInt (ds : str) | PVBool (b : bool) | PVQuoted (s : str) | PVBare (w : str).
+Inductive pval := PVInt (ds : str) | PVDec (ds fs : str) | PVBool (b : bool) | PVQuoted (s : str) | PVBare (w : str).
 
 Definition pv_text (v : pval) : str :=
   match v with
   | PVInt ds => ds
+  | PVDec ds fs => ds ++ 46%N :: fs
   | PVBool true => STR "true"
   | PVBool false => STR "false"
   | PVQuoted s => 34%N :: s ++ [34%N]
@@ -560,6 +561,7 @@ Definition pv_text (v : pval) : str :=
 Definition pv_value (v : pval) : mvalue :=
   match v with
   | PVInt ds => MInt (match digits_val 0 ds with Some i => i | None => 0 end)
+  | PVDec ds fs => MFloat (match parse_float (ds ++ 46%N :: fs) with Some f => f | None => F64.of_Z 0 end)   (* strconv.ParseFloat of the text *)
   | PVBool b => MBool b
   | PVQuoted s => MStr s
   | PVBare w => MStr w
@@ -575,6 +577,8 @@ Definition pv_ok (v : pval) : Prop :=
   match v with
   | PVInt ds => ds <> [] /\ forallb is_digit ds = true /\
                 (match digits_val 0 ds with Some i => i <? two63 | None => false end) = true
+  | PVDec ds fs => ds <> [] /\ fs <> [] /\ forallb is_digit ds = true /\ forallb is_digit fs = true /\
+                   parse_float (ds ++ 46%N :: fs) <> None
   | PVBool _ => True
   | PVQuoted s => forallb (fun c => negb (N.eqb c 34) && negb (N.eqb c 92)) s = true
   | PVBare w => word_ok w /\ str_eqb (ascii_lower w) (STR "true") = false /\ str_eqb (ascii_lower w) (STR "false") = false
@@ -656,7 +660,7 @@ Lemma parse_value_written v sep y tl p : pv_ok v -> follows sep y ->
 Proof.
   intros Hv Hf. pose proof Hf as (Hy & Hdot & _).
   destruct (sep_head_stops sep y tl Hf) as (c0 & t0 & Esep & Hc0i & Hc0u).
-  destruct v as [ds|b|s|w]; cbn [pv_text pv_value pv_ok] in *.
+  destruct v as [ds|ds fs|b|s|w]; cbn [pv_text pv_value pv_ok] in *.
   - (* integer *)
     destruct Hv as (Hne & Hd & Hr). destruct ds as [|d ds']; [contradiction|].
     pose proof Hd as Hd0. cbn [forallb] in Hd0. apply andb_true_iff in Hd0 as [Hd1 _].
@@ -671,6 +675,25 @@ Proof.
     unfold all_ascii_digits. rewrite Hd.
     destruct (digits_val 0 (d :: ds')) as [i|]; [|discriminate]. rewrite Hr.
     eexists _, p1. split; [reflexivity|]. apply consume_ws_nonspace. exact Hy.
+  - (* decimal *)
+    destruct Hv as (Hne & Hnf & Hd & Hfd & Hpf). destruct ds as [|d ds']; [contradiction|].
+    pose proof Hd as Hd0. cbn [forallb] in Hd0. apply andb_true_iff in Hd0 as [Hd1 _].
+    destruct (digit_udigit d Hd1) as (Hu & Hs & _).
+    unfold parse_value. cbn [app]. rewrite consume_ws_nonspace by exact Hs. unfold peek. cbn [rest]. rewrite Hu.
+    unfold parse_digits at 1. rewrite consume_ws_nonspace by exact Hs. cbn [rest sp].
+    replace (d :: (ds' ++ 46%N :: fs) ++ sep ++ y :: tl) with ((d :: ds') ++ 46%N :: fs ++ sep ++ y :: tl) by (cbn [app]; rewrite <- app_assoc; reflexivity).
+    rewrite take_while_app by (apply udigits_of_digits; exact Hd) || (vm_compute; reflexivity). cbn [rev app].
+    rewrite expect_peek_same by reflexivity. rewrite parse_rune_here by reflexivity.
+    destruct fs as [|f0 fs']; [contradiction|].
+    pose proof Hfd as Hf0. cbn [forallb] in Hf0. apply andb_true_iff in Hf0 as [Hf1 _].
+    destruct (digit_udigit f0 Hf1) as (Hfu & Hfs & _).
+    cbn [app]. unfold parse_digits. rewrite consume_ws_nonspace by exact Hfs. cbn [rest sp].
+    change (f0 :: fs' ++ sep ++ y :: tl) with ((f0 :: fs') ++ sep ++ y :: tl). rewrite Esep.
+    rewrite take_while_app by (apply udigits_of_digits; exact Hfd) || exact Hc0u. cbn [rev app]. rewrite <- Esep.
+    unfold all_ascii_digits. rewrite Hd, Hfd. cbn [andb].
+    cbn [app] in Hpf |- *. destruct (parse_float (d :: ds' ++ 46%N :: f0 :: fs')) as [fl|]; [|contradiction].
+    match goal with |- context [{| rest := sep ++ y :: tl; sp := ?q |}] => destruct (consume_ws_sep sep y tl q Hf) as (p1 & Ec) end.
+    eexists _, p1. split; [reflexivity|exact Ec].
   - (* boolean *)
     destruct b.
     + destruct (parse_value_word (STR "true") sep y tl p) as (r' & p' & E & Ec); [split; vm_compute; reflexivity|exact Hf|].
